@@ -4,6 +4,7 @@ import (
 	"fmt"
 	"go/token"
 	"go/types"
+	"sort"
 	"strings"
 
 	"golang.org/x/tools/go/ssa"
@@ -30,7 +31,73 @@ func (f *Frame) call(c *ssa.CallCommon, at ssa.Instruction, st *State, pos token
 	for _, a := range c.Args {
 		args = append(args, f.val(a, st))
 	}
-	return f.applyCall(c, fnv, args, st, pos)
+	r := f.applyCall(c, fnv, args, st, pos)
+	f.assumeNoForeignSentinel(c, r, st)
+	return r
+}
+
+// assumeNoForeignSentinel (A-SENTINEL): an error returned by a function of ANOTHER package (or through an interface
+// declared in another package) is never one of the package-level error sentinels `var ErrX = errors.New(...)` of the package
+// of the function under verification: those are created once by that package and handed out only by its own functions
+// (whose contracts have to say so where it matters). Without this, "returns ErrSessionDisconnected only for a DISCONNECT"
+// could not be stated: every error passed on from a callee might be the sentinel.
+func (f *Frame) assumeNoForeignSentinel(c *ssa.CallCommon, r Val, st *State) {
+	if f.pure || f.fn == nil {
+		return
+	}
+	self := f.fn.Pkg
+	if self == nil && f.fn.Parent() != nil {
+		self = f.fn.Parent().Pkg
+	}
+	if self == nil {
+		return
+	}
+	var calleePkg *types.Package
+	if c.IsInvoke() {
+		if n, ok := c.Value.Type().(*types.Named); ok {
+			calleePkg = n.Obj().Pkg()
+		}
+	} else if fn := c.StaticCallee(); fn != nil && fn.Pkg != nil {
+		calleePkg = fn.Pkg.Pkg
+	}
+	if calleePkg == nil || calleePkg == self.Pkg {
+		return
+	}
+	errT := types.Universe.Lookup("error").Type()
+	var errs []Term
+	res := c.Signature().Results()
+	if res.Len() == 1 && types.Identical(res.At(0).Type(), errT) && r.T.S != "" {
+		errs = append(errs, r.T)
+	} else if res.Len() > 1 && len(r.Tup) == res.Len() {
+		for i := 0; i < res.Len(); i++ {
+			if types.Identical(res.At(i).Type(), errT) && r.Tup[i].T.S != "" {
+				errs = append(errs, r.Tup[i].T)
+			}
+		}
+	}
+	if len(errs) == 0 {
+		return
+	}
+	var names []string
+	for n, m := range self.Members {
+		if g, ok := m.(*ssa.Global); ok && strings.HasPrefix(n, "Err") {
+			if pt, ok := g.Type().Underlying().(*types.Pointer); ok && types.Identical(pt.Elem(), errT) {
+				names = append(names, n)
+			}
+		}
+	}
+	sort.Strings(names)
+	for _, n := range names {
+		g := self.Members[n].(*ssa.Global)
+		if sv, ok := f.un.eng.globalConst(f.un, g); ok {
+			for _, e := range errs {
+				f.un.assume(st, Neq(e, sv))
+			}
+		}
+	}
+	if len(names) > 0 {
+		f.un.note("A-SENTINEL: errors returned by functions of other packages are none of this package's error sentinels")
+	}
 }
 
 func (f *Frame) applyCall(c *ssa.CallCommon, fnv Val, args []Val, st *State, pos token.Pos) Val {
